@@ -361,10 +361,15 @@ func (hm *HandshakeManager) StartHandshake(vpnAddr netip.Addr, cacheCb func(*Han
 
 	if hh, ok := hm.vpnIps[vpnAddr]; ok {
 		// We are already trying to handshake with this vpn ip
-		if cacheCb != nil {
-			cacheCb(hh)
-		}
 		hm.Unlock()
+		if cacheCb != nil {
+			// The packet store belongs to hh and is read and drained under hh's lock when the handshake
+			// completes or restarts, so writers must hold it too. Lock order is hh before hm everywhere
+			// else, hence hm is released first.
+			hh.Lock()
+			cacheCb(hh)
+			hh.Unlock()
+		}
 		return hh.hostinfo
 	}
 
